@@ -40,7 +40,11 @@ Spec == Init /\ [][Next]_vars
 \* level 1 is the initial state: histories of at most Depth calls
 Bound == TLCGet("level") <= Depth + 1
 
-Inv == OneObserverPerEndpoint(s)
+RECURSIVE Rounds(_, _, _, _)
+Rounds(x, p, mid, n) == IF n = 0 THEN x ELSE Rounds(ResourceChanged(x, p, mid, FALSE), p, mid, n - 1)
+\* the closed form used for long runs of rounds equals the rounds themselves
+ManyIsRounds == \A p \in ProbePaths, m \in Mids, n \in 0 .. 3 : ChangedMany(s, p, m, n) = Rounds(s, p, m, n)
+Inv == OneObserverPerEndpoint(s) /\ ManyIsRounds
 \* (as action constraints these are evaluated on every transition; Assert makes a failure an error
 \* instead of a silently discarded transition)
 StepOk == Assert(StepProps(s, last', s'), << "step property violated by the specification's own step", last' >>)
